@@ -122,6 +122,16 @@ Fixpoint hist_mismatch (prev : ostate) (steps : list c04_step) : bool :=
   | st :: r => let next := apply_patch prev st in
                negb (ledger_matches prev next st && model_matches prev next st) || hist_mismatch next r
   end.
+(* diagnostics: the steps of a history at which the ledger replay (first flag) or the modelled operation (second flag) disagree *)
+Fixpoint mismatch_steps_from (n : nat) (prev : ostate) (steps : list c04_step) : list (nat * bool * bool) :=
+  match steps with
+  | [] => []
+  | st :: r => let next := apply_patch prev st in
+      (if ledger_matches prev next st && model_matches prev next st then []
+       else [(n, ledger_matches prev next st, model_matches prev next st)]) ++ mismatch_steps_from (S n) next r
+  end.
+Definition mismatch_steps (c : c04_case) : list (nat * bool * bool) :=
+  match c with CHist init steps => mismatch_steps_from 0 init steps end.
 Definition case_mismatch (c : c04_case) : bool := match c with CHist init steps => hist_mismatch init steps end.
 Fixpoint mismatches_from (n : nat) (cs : list c04_case) : list nat :=
   match cs with [] => [] | c :: r => if case_mismatch c then n :: mismatches_from (S n) r else mismatches_from (S n) r end.
